@@ -74,11 +74,19 @@ BOUNDS = {
     },
 }
 
-RENDER_RECURSION_LIMIT = 400
-
-
 # --------------------------------------------------------------------------
 # running programs on mako
+
+FRAMES_PER_CALLABLE = 8
+
+
+def _stack_depth():
+    f = sys._getframe()
+    n = 0
+    while f is not None:
+        n += 1
+        f = f.f_back
+    return n
 
 
 class Runner:
@@ -102,8 +110,12 @@ class Runner:
             self.compiles += 1
         return t
 
-    def render(self, texts, main, ctx):
-        """('out', text) | ('err', 'recursion') | ('err', 'missing') | ('exc', 'Class: message')"""
+    def render(self, texts, main, ctx, callables=40):
+        """('out', text) | ('err', 'recursion') | ('err', 'missing') | ('exc', 'Class: message')
+
+        `callables` = number of distinct render callables of the program: a finite evaluation nests at most that
+        many of them, each a handful of Python frames, so the interpreter limit is lowered to make the infinite
+        ones cheap (restored afterwards)."""
         try:
             for uri, text in texts.items():
                 self.lookup.put_template(uri, self.template(uri, text))
@@ -111,7 +123,7 @@ class Runner:
         except Exception as e:  # noqa
             return ("exc", "compile %s: %s" % (type(e).__name__, str(e)[:200]))
         old = sys.getrecursionlimit()
-        sys.setrecursionlimit(RENDER_RECURSION_LIMIT)
+        sys.setrecursionlimit(_stack_depth() + FRAMES_PER_CALLABLE * (callables + 2) + 40)
         try:
             return ("out", t.render_unicode(**ctx))
         except RecursionError:
@@ -149,6 +161,9 @@ def _first_diff(exp, obs):
 
 def _segment(s, i):
     """the probe / marker the position i of an output lies in: text back to the previous space or bracket"""
+    if not s:
+        return ""
+    i = min(i, len(s) - 1)
     j = i
     while j > 0 and s[j - 1] not in " [|":
         j -= 1
@@ -162,11 +177,16 @@ def chain_sig(exp, obs, al):
     """footprint: which construct's output differs (names and level numbers abstracted)"""
     import re
 
-    if exp[0] != obs[0] or exp[0] != "out":
-        return "chain:expected %s observed %s" % (":".join(exp[:2]) if exp[0] != "out" else "output", ":".join(obs[:2]) if obs[0] == "err" else ("output" if obs[0] == "out" else "exception " + obs[1].split(":")[0]))
+    def cls(r):
+        if r[0] == "out":
+            return "output"
+        if r[0] == "err":
+            return "err:" + r[1]
+        return "exception " + r[1].split(":")[0]
+
+    if exp[0] != "out" or obs[0] != "out":
+        return "chain:expected %s observed %s" % (cls(exp), cls(obs))
     i = _first_diff(exp[1], obs[1])
-    seg_e = _segment(exp[1], min(i, len(exp[1]) - 1)) if exp[1] else ""
-    seg_o = _segment(obs[1], min(i, len(obs[1]) - 1)) if obs[1] else ""
 
     def norm(s):
         s = s.replace(al["n1"], "M").replace(al["n2"], "N").replace(al["attr"] + "@", "ATTR@")
@@ -174,45 +194,47 @@ def chain_sig(exp, obs, al):
             s = s.replace(al["fill"], "")
         return re.sub(r"\d+", "#", s)[:60]
 
-    return "chain:diff exp=%s obs=%s" % (norm(seg_e), norm(seg_o))
+    return "chain:diff exp=%s obs=%s" % (norm(_segment(exp[1], i)), norm(_segment(obs[1], i)))
 
 
 # --------------------------------------------------------------------------
 # checking one chain
 
 
-def check_chain(fam, chain, probes, seed, st, R=None, count=True):
+def check_chain(g, chain, seed, st, R=None, twice=False):
+    """g = (family, L, options, probes, def signature).  returns (ok, texts, expected, observed)"""
+    fam, probes, defsig = g[0], g[3], g[4]
     al = ir.alphabet(seed)
-    prog = ir.build_program(chain, al, probes)
+    prog = ir.build_program(chain, al, probes, defsig)
     texts = ir.print_program(prog)
     ctx = c06_env.resolve_ctx(prog["ctx"])
     exp, ref = ir.reference(prog, ctx)
     st.oracles["reference"] += 1
     R = R or runner()
-    obs = R.render(texts, prog["main"], ctx)
+    obs = R.render(texts, prog["main"], ctx, ref.callables)
     st.evaluations += 1
     st.traces += 1
     st.transitions += ref.steps
-    kind = exp[0] if exp[0] == "out" else "err:" + exp[1]
+    kind = exp[0] if exp[0] != "err" else "err:" + exp[1]
     st.outcomes[(fam[:1], len(chain), kind, min(ref.bodies, 3), "suppressed" if ref.suppressed else "-", "overridden" if ref.overridden else "-", "dispatch" if ref.dispatch else "-")] += 1
+    case = {"kind": "chain", "family": fam, "seed": seed, "chain": [list(s) for s in chain], "probes": [list(p) for p in probes], "defsig": defsig, "files": texts, "ctx": prog["ctx"]}
+    if exp[0] == "dontcare":
+        # universal oracle only: an answer or an ordinary exception
+        st.oracles["universal"] += 1
+        st.extra["dontcare_def_for_block"] = st.extra.get("dontcare_def_for_block", 0) + 1
+        return True, texts, exp, obs
     ok = exp == obs
     if not ok:
-        st.violation(
-            chain_sig(exp, obs, al),
-            {"kind": "chain", "family": fam, "seed": seed, "chain": [list(s) for s in chain], "probes": [list(p) for p in probes], "files": texts, "ctx": prog["ctx"]},
-            "reference: rendered output / error class differs from the class-chain model",
-            expected=list(exp),
-            observed=list(obs),
-        )
+        st.violation(chain_sig(exp, obs, al), case, "reference: rendered output / error class differs from the class-chain model", expected=list(exp), observed=list(obs))
+    elif twice:
+        # state kept between renders would show on a second render of the same Template objects
+        st.oracles["rerender"] += 1
+        st.evaluations += 1
+        obs2 = R.render(texts, prog["main"], ctx, ref.callables)
+        if obs2 != obs:
+            ok = False
+            st.violation("chain:second render differs", dict(case, twice=True), "rerender: a second render of the same templates differs from the first", expected=list(exp), observed=list(obs2))
     return ok, texts, exp, obs
-
-
-def check_twice(prog_texts, main, ctx, exp, st):
-    """a second render of the same Template objects must give the same answer (no state kept between renders)"""
-    obs = runner().render(prog_texts, main, ctx)
-    st.oracles["rerender"] += 1
-    st.evaluations += 1
-    return obs == exp
 
 
 # --------------------------------------------------------------------------
@@ -321,7 +343,7 @@ def _run_job(job, st):
         st.sample({"kind": "grid", "case": list(cases[20]), "text": ir.print_file(ir.grid_file(cases[20], ir.alphabet(seed)))})
         return st
     g = ir.grids(job["tier"])[job["grid"]]
-    fam, L, opts, probes = g
+    fam, L = g[0], g[1]
     sh, ns = job["shard"], job["nshards"]
     R = runner()
     c0 = R.compiles
@@ -332,19 +354,14 @@ def _run_job(job, st):
         idx += 1
         if idx % ns != sh:
             continue
-        ok, texts, exp, obs = check_chain(fam, chain, probes, seed, st, R)
+        nchains += 1
+        ok, texts, exp, obs = check_chain(g, chain, seed, st, R, twice=(nchains % 64 == 1))
         key = tuple(texts.values())
         if key not in seen:
             seen.add(key)
             st.states += 1
             if ir.chain_nontrivial(chain):
                 st.nontrivial += 1
-        nchains += 1
-        if ok and nchains % 64 == 1:
-            # state kept between renders would show on a second render of the same objects
-            ctx = c06_env.resolve_ctx({"P": "@helper:P", "A": "@helper:A", **{k: v for k, v in ir.build_program(chain, ir.alphabet(seed), probes)["ctx"].items()}})
-            if not check_twice(texts, ir.alphabet(seed)["uri"] % 0, ctx, obs, st):
-                st.violation("chain:second render differs", {"kind": "chain", "family": fam, "seed": seed, "chain": [list(s) for s in chain], "probes": [list(p) for p in probes], "files": texts, "twice": True}, "rerender: a second render of the same templates differs from the first", expected=list(exp))
         if nchains % 2503 == 1:
             st.sample({"family": fam, "L": L, "chain": [list(s) for s in chain], "files": texts, "expected": list(exp)})
     st.extra["chains_" + fam[:1] + str(L)] = nchains
@@ -363,13 +380,8 @@ def replay(case):
         check_grid_case(tuple(case["case"]), case["seed"], st, case["mode"])
     else:
         chain = [tuple(s) for s in case["chain"]]
-        probes = [tuple(p) for p in case["probes"]]
-        R = Runner()  # fresh lookup and templates
-        ok, texts, exp, obs = check_chain(case["family"], chain, probes, case["seed"], st, R)
-        if ok and case.get("twice"):
-            ctx = c06_env.resolve_ctx(ir.build_program(chain, ir.alphabet(case["seed"]), probes)["ctx"])
-            if R.render(texts, ir.alphabet(case["seed"])["uri"] % 0, ctx) != obs:
-                return False, "reproduced: second render differs"
+        g = (case["family"], len(chain), None, [tuple(p) for p in case["probes"]], case.get("defsig", ""))
+        check_chain(g, chain, case["seed"], st, Runner(), twice=bool(case.get("twice")))  # fresh lookup and templates
     if st.violations:
         v = st.violations[0]
         return False, "reproduced: sig=%s expected=%r observed=%r" % (v["sig"], v["expected"], v["observed"])
@@ -389,11 +401,10 @@ def corpus(limit=400):
     streams = []
 
     def chain_stream(g, stride):
-        fam, L, opts, probes = g
         for n, chain in enumerate(ir.grid_chains(g)):
             if n % stride:
                 continue
-            prog = ir.build_program(chain, al, probes)
+            prog = ir.build_program(chain, al, g[3], g[4])
             exp, _ = ir.reference(prog, c06_env.resolve_ctx(prog["ctx"]))
             yield {"files": ir.print_program(prog), "main": prog["main"], "ctx": dict(prog["ctx"]), "expected": exp[1] if exp[0] == "out" else None, "template_kwargs": {}}
 
